@@ -461,32 +461,32 @@ func (h *coreH) exec(line string) string {
 // ---- snapshot of the observable state --------------------------------------------------------
 
 type coreState struct {
-	Creator, Next           int // Next: -1 empty, -2 sentinel
-	Start, Num, CH          uint64
-	Final                   bool
-	NBds, LastBdH, LastDrs  uint64
-	LastHasTs               bool
+	Creator, Next          int // Next: -1 empty, -2 sentinel
+	Start, Num, CH         uint64
+	Final                  bool
+	NBds, LastBdH, LastDrs uint64
+	LastHasTs              bool
 }
 
 type coreRa struct {
-	Exists                 bool
-	Launched               bool
-	Tph                    uint64
-	Revs                   [][2]uint64
-	LastFin, Latest        uint64
-	EvH, CdStart           int64
-	Prop, Succ             int // -1 = sentinel
-	States                 []coreState
-	ByHeight               map[uint64]uint64
-	Probes                 []uint64
+	Exists          bool
+	Launched        bool
+	Tph             uint64
+	Revs            [][2]uint64
+	LastFin, Latest uint64
+	EvH, CdStart    int64
+	Prop, Succ      int // -1 = sentinel
+	States          []coreState
+	ByHeight        map[uint64]uint64
+	Probes          []uint64
 }
 
 type coreSeq struct {
-	Ra                  int
-	Bonded, OptedIn     bool
-	Tokens              math.Int
-	Dishonor            uint64
-	Notice              int64 // ns since BaseTime, -1 = none
+	Ra              int
+	Bonded, OptedIn bool
+	Tokens          math.Int
+	Dishonor        uint64
+	Notice          int64 // ns since BaseTime, -1 = none
 }
 
 type coreSnap struct {
